@@ -344,6 +344,56 @@ theorem nsec3_nameerror_sound (all hashed : List Name) (H : Name → Hash) (reco
       secure = (nc.flags % 2 == 0) ∧ (secure = true → q ∉ all) :=
   verifyNameError_sound hgen hclosed h
 
+/-- **"No DS, the delegation is insecure" from NSEC3** (`VerifyDelegationForZoneWithWork`,
+RFC 5155 §8.9): accepted only (a) from the record matching the name itself,
+with NS set and neither DS nor SOA, or (b) without a match, from a closest
+encloser that is validated — its record carries neither DNAME nor
+NS-without-SOA, so the name is not below one of the signer's own zone cuts or
+DNAMEs (RFC 6840 §4.1) — whose next-closer name is covered by a span WITH the
+Opt-Out flag. -/
+theorem nsec3_delegation_sound (H : HashFn) (records : List Nsec3) (signer d : Name)
+    (h : verifyDelegation H records signer d = .ok ()) :
+    ∃ ring, prepare records signer = .ok ring ∧
+      ((∃ m, findMatching H ring d = .ok m ∧ typesSet m.types [tNS] = true ∧ typesSet m.types [tDS, tSOA] = false) ∨
+       (∃ k m nc, closestEncloser H ring d = some (k, m) ∧
+          typesSet m.types [tDNAME] = false ∧ (typesSet m.types [tNS] && !typesSet m.types [tSOA]) = false ∧
+          findCoverer H ring (nextCloser d k) = .ok nc ∧ nc.flags % 2 = 1)) := by
+  unfold verifyDelegation at h
+  split at h
+  · cases h
+  · rename_i ring hprep
+    refine ⟨ring, hprep, ?_⟩
+    split at h
+    · rename_i m hm
+      split at h
+      · cases h
+      · rename_i hns
+        split at h
+        · cases h
+        · rename_i hds
+          exact Or.inl ⟨m, hm, by simpa using hns, by simpa using hds⟩
+    · split at h
+      · cases h
+      · rename_i k m hce
+        split at h
+        · cases h
+        · rename_i nc hnc
+          split at h
+          · rename_i hfl
+            right
+            unfold validateCE at hce
+            split at hce
+            · cases hce
+            · rename_i k' m' hcl
+              split at hce
+              · cases hce
+              · rename_i hcut
+                simp only [Except.ok.injEq, Prod.mk.injEq] at hce
+                obtain ⟨rfl, rfl⟩ := hce
+                simp only [Bool.or_eq_true, not_or, Bool.not_eq_true] at hcut
+                exact ⟨k', m', nc, hcl, hcut.1, hcut.2, hnc, by simpa using hfl⟩
+          · cases h
+
 /-- **`EvaluateAggressiveNSEC3` never fabricates an NXDOMAIN, for an arbitrary
 hash.**  If every record offered is genuine and the evaluator synthesises
 NXDOMAIN, the question name is not in the zone's tree: the evaluator found
@@ -592,6 +642,47 @@ theorem lookupProof_uses_live_only (st : State) (q : Name) (t : Nat) (rc : Rcode
         exact ⟨z, (hsub z (List.mem_cons_self ..)).1, (hsub z (List.mem_cons_self ..)).2, hlive, p, hev⟩
       · exact ih h (fun y hy => hsub y (List.mem_cons_of_mem _ hy))
     · exact ih h (fun y hy => hsub y (List.mem_cons_of_mem _ hy))
+
+theorem cutWalk_spec (st : State) (q : Name) : ∀ (k : Nat) (c : CutEntry), cutWalk st q k = some c →
+    c ∈ st.cuts ∧ st.now < c.expires ∧ ∃ j, 1 ≤ j ∧ j ≤ k ∧ c.denied = q.take j := by
+  intro k
+  induction k with
+  | zero => intro c h; simp [cutWalk] at h
+  | succ k ih =>
+    intro c h
+    unfold cutWalk at h
+    split at h
+    · rename_i c' hf
+      split at h
+      · rename_i hlive
+        simp only [Option.some.injEq] at h
+        subst h
+        exact ⟨List.mem_of_find?_eq_some hf, hlive, k + 1, by omega, by omega, by simpa using List.find?_some hf⟩
+      · obtain ⟨h1, h2, j, h3, h4, h5⟩ := ih c h
+        exact ⟨h1, h2, j, h3, by omega, h5⟩
+    · obtain ⟨h1, h2, j, h3, h4, h5⟩ := ih c h
+      exact ⟨h1, h2, j, h3, by omega, h5⟩
+
+/-- **A subtree cut answers only at label boundaries** (RFC 8020): a hit for
+`q` comes from an unexpired recorded denied name that is `q` itself or an
+ancestor of `q` LABEL BY LABEL (a list prefix of its labels, never a suffix of
+its text: an octet 0x2E or a backslash inside a label is not a boundary), and
+never from the root. -/
+theorem cut_lookup_label_boundary (st : State) (q : Name) (h : lookupCut st q = true) :
+    ∃ c ∈ st.cuts, st.now < c.expires ∧ c.denied <+: q ∧ c.denied ≠ [] := by
+  unfold lookupCut at h
+  obtain ⟨c, hc⟩ := Option.isSome_iff_exists.mp h
+  obtain ⟨h1, h2, j, h3, h4, h5⟩ := cutWalk_spec st q q.length c hc
+  refine ⟨c, h1, h2, h5 ▸ List.take_prefix _ _, ?_⟩
+  intro e
+  have : (q.take j).length = j := by rw [List.length_take]; omega
+  rw [← h5, e] at this
+  simp at this
+  omega
+
+-- non-vacuity: a cut for `b.z.` answers `k.b.z.` but not the one-label sibling `a.b` + `z` (text `a\.b.z.`)
+example : lookupCut { now := 0, cuts := [{ denied := [[122], [98]], expires := 10 }] } [[122], [98], [107]] = true ∧
+    lookupCut { now := 0, cuts := [{ denied := [[122], [98]], expires := 10 }] } [[122], [97, 46, 98]] = false := by decide
 
 -- non-vacuity: two signatures over one RRset, the earlier one decides
 example : proofExpiry 0 10800 none [300] none [⟨300, 300, 7⟩, ⟨300, 300, 7200⟩] = some 7 := by decide
